@@ -483,6 +483,23 @@ class Run:
             faults.apply_inner(rep, item["inner"])
             for op in item["inner"]:
                 sim.count("fault.inner." + op["op"])
+        if item.get("fit_total"):
+            # size the datagram exactly: grow / shrink the last OCTET STRING value until the final
+            # (signed, encrypted) message has the wanted number of octets
+            want = item["fit_total"]
+            vals = [n for _, n in rep.tree.walk() if n.name == "value" and n.tag == 0x04 and n.children is None]
+            if vals and rep.label.get("varbinds"):
+                v = vals[-1]
+                for _ in range(6):
+                    diff = want - len(rep.clone().finalize())
+                    if diff == 0:
+                        sim.count("probe.exact-size-reply")
+                        break
+                    v.content = (v.content + b"\x5a" * diff) if diff > 0 else v.content[: max(0, len(v.content) + diff)]
+                for vb in reversed(rep.label["varbinds"]):
+                    if vb[1][0] == "octets":
+                        vb[1][1] = v.content.hex()
+                        break
         data = rep.finalize()
         if item.get("cut"):
             # truncate at a TLV boundary of the final message
@@ -600,6 +617,8 @@ class Run:
             kw["community"] = cfg["community"]
         if cfg.get("user") is not None:
             kw["user"] = self.make_user(cfg["user"])
+        elif cfg.get("spurious_user") and not cfg.get("version_auto"):
+            kw["user"] = g.user.User("ignored", auth_key=g.user.Sha1Key(b"ignored-secret"))
         if cfg.get("engine_id"):
             kw["engine_id"] = bytes.fromhex(cfg["engine_id"])
         elif cfg.get("engine_id_empty"):
